@@ -143,10 +143,19 @@ def pad_variants(n: int):
     return out
 
 
+LONG_DIGITS = [4299, 4300, 4301, 10000]
+
+
+def long_digits(n: int, value: str | None) -> str:
+    """n characters: `value` padded with leading zeros, or n sevens"""
+    return value.rjust(n, "0") if value is not None else "7" * n
+
+
 MUTATIONS = [
     "bl_nonnumeric", "bl_negative", "bl_huge", "bl_padded", "bl_offby", "ck_nonnumeric", "ck_lenient", "ck_wrong",
     "tag_nonnumeric", "missing_eq", "empty_field", "wrong_order", "truncated", "wrong_begin", "repeated_tag",
     "group_odd", "top_repeat_after_group", "two_heads", "no_trailing_soh", "junk_prefix", "short_head_closed",
+    "long_digits",
 ]
 
 
@@ -223,12 +232,37 @@ def gen_malformed(rng, force=None):
             trailing = False
         elif mut == "junk_prefix":
             prefix += bytes(rng.randrange(256) for _ in range(rng.randint(1, 9)))
+        elif mut == "long_digits":
+            # very long digit strings at an int() site: CPython refuses more than 4300 digits
+            n = rng.choice(LONG_DIGITS)
+            site = rng.choice(["tag", "tag", "bodylength", "checksum", "seqnum", "groupcount", "value"])
+            zeros = rng.random() < 0.5
+            labels[-1] = "long_digits:%s:%d%s" % (site, n, "z" if zeros else "")
+            if site == "tag":
+                pairs.insert(rng.randrange(3, nb), [long_digits(n, "55" if zeros else None), "x"])
+            elif site == "bodylength":
+                true_len = len(serialize(pairs)) - len(serialize(pairs[:2])) - 1 - 7
+                pairs[1] = ["9", long_digits(n, str(true_len) if zeros else None)]
+            elif site == "checksum":
+                post = ("ck_long", n if zeros else -n)
+            elif site == "seqnum":
+                pairs[5] = ["34", long_digits(n, "7" if zeros else None)]
+            elif site == "groupcount":
+                pairs[nb - 1:nb - 1] = [["453", long_digits(n, "1" if zeros else None)], ["448", "p"], ["447", "D"]]
+            else:
+                pairs.insert(rng.randrange(3, nb), ["58", long_digits(n, None)])
         elif mut == "short_head_closed":
             prefix += rng.choice([b"8=FIX.4.4\x0110=000\x01", b"8=FIX.4.4\x0110=000", b"8=FIX.\x0110=\x01"])
     try:
         raw = serialize(pairs, fix_len=fix_len, fix_ck=fix_ck, trailing=trailing)
     except UnicodeEncodeError:
         raw = serialize([p for p in pairs if "½" not in str(p)], fix_len, fix_ck, trailing)
+    if post and post[0] == "ck_long":
+        i = raw.rfind(b"\x0110=")
+        if i >= 0 and raw[i + 4:i + 7].isdigit():
+            n = post[1]
+            v = raw[i + 4:i + 7].decode().rjust(n, "0") if n > 0 else "7" * (-n)
+            raw = raw[:i + 4] + v.encode() + raw[i + 7:]
     if post and post[0] == "ck_lenient":
         i = raw.rfind(b"\x0110=")
         if i >= 0 and raw[i + 4:i + 7].isdigit():
@@ -454,7 +488,7 @@ def check_reader(m: bytes):
     chunks, frames = reader_stream(m)
     if chunks is None:
         return "huge-declared-length", []
-    rep = K.run_reader(chunks, max_steps=MAX_DELIVERIES)
+    rep = K.run_reader(chunks, max_steps=MAX_DELIVERIES + 2 * len(frames))
     inp = {"kind": "reader", "malformed": m.hex(), "chunks": [c.hex() for c in chunks]}
     parts = rep.split(" D ")
     head = parts[0].split(" ")
@@ -513,6 +547,14 @@ def run_reader_p(chunks, max_steps=MAX_DELIVERIES):
                 flag[0] = "stalled"
                 raise asyncio.CancelledError()
             if "9999" in msg:
+                # exceptions of several classes leave the processing step
+                v = msg["9999"]
+                if v.startswith("F"):
+                    from asyncfix.errors import FIXMessageError
+                    raise FIXMessageError("refused by the session layer")
+                if v.startswith("S"):
+                    import sqlite3
+                    raise sqlite3.OperationalError("database is locked")
                 raise ProcError("processing failed")
 
     conn = Conn(K.proto(), "S", "T", Journaler(), "h", 1, 30)
@@ -523,7 +565,7 @@ def run_reader_p(chunks, max_steps=MAX_DELIVERIES):
         def exception(self, *a, **k):
             import sys
             e = sys.exc_info()[1]
-            if isinstance(e, ProcError):
+            if type(e).__name__ in ("ProcError", "FIXMessageError", "OperationalError"):
                 exc[0] += 1
             else:
                 if flag[0] == "-":
@@ -540,6 +582,43 @@ def run_reader_p(chunks, max_steps=MAX_DELIVERIES):
     return "buf %s %s E%d%s" % (C.cp(conn._msg_buffer), flag[0], exc[0], ds)
 
 
+def check_reader_p(chunks):
+    """implementation-only clauses for the reader whose processing step raises: a frame is handed over as often as it
+    was sent, later valid frames still arrive, the buffer is drained"""
+    stream = b"".join(chunks)
+    bound = declared_bound(stream)          # bytes a malformed head may legitimately wait for / swallow
+    nflush = stream.count(b"8=FIX.") + 2
+    if bound is not None:
+        nflush += bound // 40
+    flush = [valid_frame(900 + j) for j in range(nflush)]
+    all_chunks = list(chunks) + flush
+    rep = run_reader_p(all_chunks, max_steps=MAX_DELIVERIES + 2 * len(all_chunks))
+    inp = {"kind": "readerp", "chunks": [c.hex() for c in chunks]}
+    parts = rep.split(" D ")
+    head = parts[0].split(" ")
+    raws = [C.unhx(p.split(" ")[2]) for p in parts[1:]]
+    whole = b"".join(all_chunks)
+    fails = []
+    for f in set(raws):
+        if raws.count(f) > whole.count(f):
+            fails.append({"signature": "C10-frame-processed-twice", "what": "a frame whose processing raised stays in the "
+                          "receive buffer and is handed to processing again on the next read", "input": inp,
+                          "expected": "handed over %d time(s)" % whole.count(f), "observed": "%d times: %s" % (raws.count(f), f[:80])})
+            break
+    if head[2] != "-":
+        fails.append({"signature": "C10-reader-" + head[2].split(":")[0], "what": "the reader task hit '%s'" % head[2],
+                      "input": inp, "expected": "-", "observed": rep[:120]})
+    if bound is None:
+        return fails
+    if flush[-1] not in raws:
+        fails.append({"signature": "C10-reader-blocked", "what": "valid frames sent after a frame whose processing raised are "
+                      "never delivered", "input": inp, "expected": "the last valid frame is delivered", "observed": rep[:160]})
+    if C.unhx(head[1]) != b"":
+        fails.append({"signature": "C10-live-buffer-not-drained", "what": "bytes of handled frames stay in the receive buffer",
+                      "input": inp, "expected": "empty buffer", "observed": "%d bytes" % len(C.unhx(head[1]))})
+    return fails
+
+
 def gen_proc_stream(rng):
     """valid frames, some of which make processing raise (9999=…), corrupted and malformed ones, chunked"""
     parts = []
@@ -548,7 +627,7 @@ def gen_proc_stream(rng):
         if r < 0.45:
             parts.append(valid_frame(i + 1))
         elif r < 0.75:
-            parts.append(valid_frame(i + 1, ["9999=%d" % i] + (["58=x"] if rng.random() < 0.5 else [])))
+            parts.append(valid_frame(i + 1, ["9999=%s%d" % (rng.choice(["", "F", "S"]), i)] + (["58=x"] if rng.random() < 0.5 else [])))
         elif r < 0.9:
             parts.append(corrupt_safely(rng, valid_frame(i + 1, ["9999=1"] if rng.random() < 0.5 else [])))
         else:
@@ -571,7 +650,7 @@ def live_frame(seq, fields, sender="INITIATOR", target="ACCEPTOR", mtype="D") ->
     return K.ref_frame(head + list(fields))
 
 
-def live_run(chunks):
+def live_run(chunks, faults=None):
     """Feed the reads to a REAL logged-on-able acceptor connection: real socket_read_task, real decode, real
     _process_message / _validate_integrity / journal; only the transport and the application hooks are stubs.
     Returns {"state", "delivered": [ClOrdID…], "buf": bytes left, "max_buf", "exceptions": n, "sent": n}"""
@@ -625,12 +704,39 @@ def live_run(chunks):
 
         async def on_message(self, msg):
             out["delivered"].append(msg.get(FTag.ClOrdID, "?"))
+            k = len(out["delivered"]) - 1
+            if faults.get("hook") and faults["hook"]["k"] == k:
+                import sqlite3
+
+                from asyncfix.errors import FIXMessageError
+                out["faults_fired"] += 1
+                raise {"RuntimeError": RuntimeError("hook failed"), "FIXMessageError": FIXMessageError("hook refused"),
+                       "OperationalError": sqlite3.OperationalError("database is locked"),
+                       "CancelledError": asyncio.CancelledError()}[faults["hook"]["exc"]]
 
         async def on_disconnect(self):
             out["disconnected"] = True
             raise asyncio.CancelledError()
 
-    conn = App(K.proto(), "ACCEPTOR", "INITIATOR", Journaler(), "h", 1, 30)
+    faults = faults or {}
+    out["faults_fired"] = 0
+    journal = Journaler()
+    real_persist = journal.persist_msg
+    pcount = [0]
+
+    def persist_msg(raw, session, direction):
+        from asyncfix.message import MessageDirection
+        if direction == MessageDirection.INBOUND:
+            k = pcount[0]
+            pcount[0] += 1
+            if k in faults.get("persist", ()):
+                import sqlite3
+                out["faults_fired"] += 1
+                raise sqlite3.OperationalError("database is locked")     # once; the next call works again
+        return real_persist(raw, session, direction)
+
+    journal.persist_msg = persist_msg
+    conn = App(K.proto(), "ACCEPTOR", "INITIATOR", journal, "h", 1, 30)
     conn.log = _Lg()
     conn._socket_reader = _Rd(conn)
     conn._socket_writer = _Wr()
@@ -672,7 +778,8 @@ def corrupt_safely(rng, frame: bytes) -> bytes:
 
 
 LIVE_KINDS = ["valid", "valid", "valid", "corrupt", "corrupt", "dup49", "dup56", "dup34", "dup8", "no35",
-              "seq_nonnumeric", "no49", "bad_compid", "seq_low"]
+              "seq_nonnumeric", "no49", "bad_compid", "seq_low", "long_tag", "long_seq"]
+HOOK_FAULTS = ["RuntimeError", "FIXMessageError", "OperationalError", "CancelledError"]
 
 
 def gen_live(rng):
@@ -684,12 +791,16 @@ def gen_live(rng):
     expected, kinds = [], []
     raising = 0
     alive = True
+    forced = []          # offsets at which a read must end (the decoder drops the whole buffer at such a frame)
+    off = len(frames[0])
     n_items = rng.randint(2, 8)
     burst = rng.random() < 0.04
     if burst:
         n_items = rng.randint(40, 120)          # many frames in few reads
     for i in range(n_items):
         kind = rng.choice(LIVE_KINDS)
+        if i == 0 and rng.random() < 0.12:
+            kind = "long_tag"
         if burst and kind not in ("valid", "corrupt"):
             kind = "valid"
         if kind in ("seq_nonnumeric", "no49", "bad_compid", "seq_low") and rng.random() < 0.8:
@@ -717,6 +828,34 @@ def gen_live(rng):
             if alive:
                 expected.append(tag)
             seq += 1
+        elif kind == "long_tag":
+            # a tag of 4299 … 10000 digits: int() accepts at most 4300
+            n = rng.choice(LONG_DIGITS)
+            if i != 0 and n > 4300:
+                # the decoder answers a non-numeric tag by dropping EVERYTHING that is buffered, and frames pile up
+                # behind rejected ones until the next read: only as the first frame is nothing valid lost with it
+                n = rng.choice([4299, 4300])
+            body.insert(rng.randint(1, len(body)), long_digits(n, "5001" if rng.random() < 0.5 else None) + "=v")
+            kinds[-1] = "long_tag:%d" % n
+            if n <= 4300:
+                frames.append(live_frame(seq, body))
+                if alive:
+                    expected.append(tag)
+                seq += 1
+            else:
+                frames.append(live_frame(seq, ["11=X%d" % i] + body[1:]))
+                raising += 1
+                forced.append(off + len(frames[-1]))     # "non-numeric tag" drops everything that is buffered
+        elif kind == "long_seq":
+            n = rng.choice(LONG_DIGITS)
+            kinds[-1] = "long_seq:%d" % n
+            frames.append(live_frame(str(seq).rjust(n, "0"), body))
+            if n <= 4300:
+                if alive:
+                    expected.append(tag)
+                seq += 1
+            else:
+                alive = False                            # "MsgSeqNum(34) is not a number": Logout + disconnect
         else:
             # the connection answers these by disconnecting: nothing after them is expected
             if kind == "seq_nonnumeric":
@@ -728,9 +867,26 @@ def gen_live(rng):
             else:
                 frames.append(live_frame(1, body))
             alive = False
+        off = sum(map(len, frames))
+    # faults of collaborators while frames are processed
+    faults = {}
+    if rng.random() < 0.35:
+        faults["persist"] = sorted(set(rng.randrange(0, len(expected) + 2) for _ in range(rng.choice([1, 1, 2]))))
+        raising += len(faults["persist"])
+    if rng.random() < 0.25 and expected:
+        faults["hook"] = {"k": rng.randrange(0, len(expected) + 1), "exc": rng.choice(HOOK_FAULTS)}
+        if faults["hook"]["exc"] == "CancelledError" and "persist" in faults:
+            # (a journal error raised in the `finally` of _process_message would replace the cancellation)
+            raising -= len(faults.pop("persist"))
+    if forced and 0 in faults.get("persist", ()):
+        faults["persist"].remove(0)          # nothing may be pending in front of a frame that drops the whole buffer
+        raising -= 1
     stream = b"".join(frames)
     n = len(stream)
-    cuts = sorted(set(rng.randrange(1, n) for _ in range(rng.choice([0, 1, 2, 3, 6, 12]))))
+    cuts = set(rng.randrange(1, n) for _ in range(rng.choice([0, 1, 2, 3, 6, 12])))
+    if n > 4096 and rng.random() < 0.7:
+        cuts = set(range(4096, n, 4096))       # as a StreamReader.read(4096) would deliver it
+    cuts = sorted(c for c in (cuts | set(forced)) if 0 < c < n)
     chunks = K.split_at(stream, cuts)
     # the inner loop of socket_read_task leaves at every rejected frame and at every processing exception, what is
     # buffered behind it is looked at on the next read: one flush read per such frame, plus two
@@ -740,12 +896,25 @@ def gen_live(rng):
         if alive:
             expected.append(tag)
         seq += 1
-    return chunks, expected, {"kinds": kinds, "disconnecting": not alive}
+    cancelled = None
+    if faults.get("hook", {}).get("exc") == "CancelledError" and faults["hook"]["k"] < len(expected):
+        # the reader task is cancelled inside the hook: it ends there, by design
+        expected = expected[: faults["hook"]["k"] + 1]
+        cancelled = expected[-1]
+    return chunks, expected, {"kinds": kinds, "disconnecting": not alive, "faults": faults, "cancelled": cancelled}
 
 
-def live_clauses(res, expected, disconnecting):
+def live_clauses(res, expected, disconnecting, cancelled=None):
     """oracle clauses of one live run; yields (signature, what, observed)"""
     got = res["delivered"]
+    if cancelled is not None:
+        if got != expected:
+            yield ("C10-live-valid-frame-not-delivered", "frames before a cancellation were not delivered exactly once",
+                   "expected %s got %s" % (expected, got))
+        if ("11=%s\x01" % cancelled).encode() in res["buf"]:
+            yield ("C10-live-buffer-not-drained", "the frame that was being processed when the task was cancelled is "
+                   "still in the receive buffer", "%d bytes left" % len(res["buf"]))
+        return
     if any(t.startswith("X") for t in got):
         yield ("C10-live-corrupted-frame-delivered", "a corrupted frame was delivered to the application", got)
     if any(got.count(t) > 1 for t in got):
@@ -763,12 +932,14 @@ def live_clauses(res, expected, disconnecting):
                "every read)", "%d bytes left, max %d" % (len(res["buf"]), res["max_buf"]))
 
 
-def check_live(chunks, expected, disconnecting, desc=None):
-    res = live_run(chunks)
-    inp = {"kind": "live", "chunks": [c.hex() for c in chunks], "expected": expected, "disconnecting": disconnecting,
-           "frames": desc}
+def check_live(chunks, expected, disconnecting, desc=None, faults=None, cancelled=None):
+    res = live_run(chunks, faults)
+    hexes = [c.hex() if len(c) < 3000 else "LONG:%d:%s" % (len(c), c.hex()) for c in chunks]
+    inp = {"kind": "live", "chunks": hexes, "expected": expected, "disconnecting": disconnecting,
+           "frames": desc, "faults": faults, "cancelled": cancelled}
     return res, [{"signature": sig, "what": what, "input": inp, "expected": "delivered == %s, buffer empty" % expected,
-                  "observed": str(obs)[:300]} for sig, what, obs in live_clauses(res, expected, disconnecting)]
+                  "observed": str(obs)[:300]}
+                 for sig, what, obs in live_clauses(res, expected, disconnecting, cancelled)]
 
 
 # ------------------------------------------------------------------ history: several connections on ONE connection object
@@ -1133,7 +1304,8 @@ def correspondence(ctx):
         k = rng.randint(0, 6)
         ints.append("".join(rng.choice("0123456789+- _\t\n\x0b\x0c\r\x1c\x1d\x1e\x1f\x85\xa0\xb2x.e") if rng.random() < 0.5
                             else rng.choice("0123456789") for _ in range(k)))
-    ints += ["7" * 4300, "7" * 4301, " " + "1" * 4300 + " ", "1_" * 2150 + "1", "-" + "9" * 4301, "\xa0" + "5" * 4301]
+    ints += ["7" * 4299, "0" * 4298 + "55", "0" * 4299 + "5", "0" * 9999 + "1", "7" * 10000, "+" + "7" * 4300, "7" * 4300 + " ",
+             "1_" * 2149 + "11", "7" * 4300, "7" * 4301, " " + "1" * 4300 + " ", "1_" * 2150 + "1", "-" + "9" * 4301, "\xa0" + "5" * 4301]
     model = drv.batch(["codec.pyint " + C.cp(s) for s in ints])
     for s, ml in zip(ints, model):
         try:
@@ -1296,14 +1468,28 @@ def oracle(ctx, disagreements, broken):
         stats["reader_outcomes"][outcome] = stats["reader_outcomes"].get(outcome, 0) + 1
         failures += fs
 
+    # 4b reader whose processing step raises (several exception classes): disagreeing runs first, then a sample
+    stats["readerp_checks"] = 0
+    pruns = [[bytes.fromhex(c) for c in d["input"]["chunks"]] for d in disagreements if d["input"].get("kind") == "feedp"][:150]
+    pruns += [gen_proc_stream(rng) for _ in range(ctx.n(400, 4000))]
+    for chunks in pruns:
+        if chunks:
+            stats["readerp_checks"] += 1
+            failures += check_reader_p(chunks)
+
     # 5 live connection with the real _process_message: valid, corrupted and unprocessable frames mixed, any chunking
     stats["live_runs"] = 0
     stats["live_final_states"] = {}
     stats["live_frame_kinds"] = {}
     for _ in range(ctx.n(1500, 15000) * (4 if broken else 1)):
         chunks, expected, meta = gen_live(rng)
-        res, fs = check_live(chunks, expected, meta["disconnecting"], meta["kinds"])
+        res, fs = check_live(chunks, expected, meta["disconnecting"], meta["kinds"][:12], meta["faults"], meta["cancelled"])
         stats["live_runs"] += 1
+        for fk in ("persist", "hook"):
+            if meta["faults"].get(fk):
+                key = fk if fk == "persist" else "hook:" + meta["faults"]["hook"]["exc"]
+                stats.setdefault("live_faults", {})[key] = stats.setdefault("live_faults", {}).get(key, 0) + 1
+        stats["live_faults_fired"] = stats.get("live_faults_fired", 0) + res["faults_fired"]
         stats["live_final_states"][res["state"]] = stats["live_final_states"].get(res["state"], 0) + 1
         for k in meta["kinds"]:
             stats["live_frame_kinds"][k] = stats["live_frame_kinds"].get(k, 0) + 1
@@ -1338,10 +1524,13 @@ def replay(ctx, rp):
     inp = rp["input"]
     if inp["kind"] == "decode":
         fs = list(check_decode(impl, bytes.fromhex(inp["raw"])))
+    elif inp["kind"] == "readerp":
+        fs = check_reader_p([bytes.fromhex(c) for c in inp["chunks"]])
     elif inp["kind"] == "history":
         _, fs = check_history(inp["history"])
     elif inp["kind"] == "live":
-        _, fs = check_live([bytes.fromhex(c) for c in inp["chunks"]], inp["expected"], inp["disconnecting"])
+        _, fs = check_live([bytes.fromhex(c.split(":")[-1]) for c in inp["chunks"]], inp["expected"], inp["disconnecting"],
+                           None, inp.get("faults"), inp.get("cancelled"))
     else:
         _, fs = check_reader(bytes.fromhex(inp["malformed"]))
     sigs = sorted({f["signature"] for f in fs})
